@@ -152,6 +152,7 @@ type vGen struct {
 	cmid   int64
 	rev    int64
 	length int
+	wild   int // percentage of client lines drawn from the grammar/mutation fuzzer instead of the alphabet
 }
 
 func (g *vGen) tick() {
@@ -311,6 +312,11 @@ func (g *vGen) next(step int, st map[string]interface{}) *vEntry {
 		return anyNick()
 	}
 
+	if !actor["sv"].(bool) && g.wild > 0 && r.Intn(100) < g.wild {
+		e.Sup = false
+		e.Data = vWildLine(r, anyNick, anyChan)
+		return e
+	}
 	if actor["sv"].(bool) {
 		// protocol-conforming services lines
 		var pseudos []string
@@ -683,8 +689,8 @@ func vVerifyMirror(tok string, ts int64) bool {
 	return ts-nanos/1000000000 <= 300
 }
 
-func vGenHistory(rng *rand.Rand, length int) func(step int, st map[string]interface{}) *vEntry {
-	g := &vGen{r: rng, ts: 1000 + int64(rng.Intn(100)), length: length}
+func vGenHistory(rng *rand.Rand, length int, wild int) func(step int, st map[string]interface{}) *vEntry {
+	g := &vGen{r: rng, ts: 1000 + int64(rng.Intn(100)), length: length, wild: wild}
 	return func(step int, st map[string]interface{}) *vEntry {
 		if step > length {
 			return nil
